@@ -1,6 +1,7 @@
 import GomlVerif.Lemmas.WtSubst
 import GomlVerif.Lemmas.MonoCollapse
 import GomlVerif.Lemmas.ValTySound
+import GomlVerif.Lemmas.ValTyStore
 /-!
 # C03 — acceptance is type-sound: every stage output is well-typed and closed
 
